@@ -2,7 +2,7 @@
    Handler model: coq/model/Handlers.v (h_collect_fees), coq/model/Bank.v (claim_emissions,
    settle_emissions). Which signer may draw down the fee / insurance vaults is an account-constraint
    fact and is pinned in C08 (withdraw_fees, withdraw_fees_permissionless, withdraw_insurance). *)
-Require Import Base Constants Fixed Curve Bank BankOps Risk TransferFee Handlers FixedLemmas BankLemmas HandlerLemmas.
+Require Import Base Constants Fixed Curve Bank BankOps Risk TransferFee Handlers FixedLemmas BankLemmas HandlerLemmas TransferFeeLemmas.
 Require Import Panic AnchorTypes AnchorSem Gate AccountsTable HandlerFacts Spec AnchorSemLemmas AuthLemmas.
 Local Open Scope Z_scope.
 
@@ -63,6 +63,22 @@ Proof. exact emission_destination_owner. Qed.
 Definition ex_hb : hbank :=
   mkHB (mkBank ONE ONE (100 * ONE) 0 (5 * ONE / 2) (7 * ONE) (ONE / 3) 0 U64_MAX U64_MAX 0 6 0 0 0 0 0 1 (mkIR 0 0 0 0 0 0 0 0 0 [] 1))
        (mkRC ONE ONE ONE ONE 0 0 0 []) (fixed_feed ONE) 6 0 0 0 false 0 0 0.
+(* Funding: lending_pool_setup_emissions(total) and lending_pool_update_emissions_parameters(additional) record `amount`
+   as funded emissions; the emissions vault receives AT LEAST that amount (Token-2022 transfer fee, pending fee change and
+   any epoch included), so what positions can be credited (<= the recorded remaining amount, C19_emissions_conserved_and_capped)
+   is covered by tokens in the vault *)
+Theorem C19_emissions_funding_covers_recorded : forall has_fee s epoch balance amount sent recv,
+  0 <= fs_old_bps s <= 10000 -> 0 <= fs_new_bps s <= 10000 -> 0 <= fs_old_max s -> 0 <= fs_new_max s ->
+  0 <= amount ->
+  fund_emissions has_fee s epoch balance amount = Ok (sent, recv) ->
+  amount <= recv /\ recv <= sent /\ sent <= balance.
+Proof. exact fund_emissions_covers. Qed.
+
+Example C19_funding_nonvacuous :
+  fund_emissions true (mkFS 100 5 500 U64_MAX 7) 7 U64_MAX 1000000000 = Ok (1052631579, 1000000000) /\
+  fund_emissions true (mkFS 100 5 500 U64_MAX 7) 6 U64_MAX 1000000000 = Ok (1000000005, 1000000000).
+Proof. vm_compute. split; reflexivity. Qed.
+
 Example C19_nonvacuous :
   match h_collect_fees (mkHW [ex_hb] [] 0 (mkPF false 0 0) [] false) 0 with
   | Ok w' => map (fun hb => (hb_vault hb, hb_insv hb, hb_feev hb, hb_feeata hb, b_ins (hb_b hb) / (ONE / 2))) (hw_banks w')
@@ -74,3 +90,4 @@ Print Assumptions C19_emissions_conserved_and_capped.
 Print Assumptions C19_settle_pays_whole_tokens.
 Print Assumptions C19_emissions_withdrawn_only_by_authority.
 Print Assumptions C19_emissions_destination_set_only_by_authority.
+Print Assumptions C19_emissions_funding_covers_recorded.
